@@ -70,6 +70,7 @@ structure State where
   doneAt   : List (Nat × Nat) := []         -- instant the leader's inner call finishes
   serial   : Nat := 0
   log      : List CEv := []                 -- ghost: every event so far
+  svcGone  : Bool := false                  -- every service handle has been dropped: no further `call`
 deriving Repr
 
 inductive Op
@@ -77,6 +78,7 @@ inductive Op
   | poll (c : Nat)
   | drop (c : Nat)
   | adv (ms : Nat)
+  | dropsvc                                 -- the last `CoalesceService` handle (and the layer) is dropped
 deriving Repr
 
 /-- the leader registered for `key` in the map, if any -/
@@ -155,7 +157,9 @@ def dropWaiter (s : State) (c : Nat) : State := { s with gone := c :: s.gone }
 def stepS (s : State) (op : Op) : State :=
   match op with
   | .adv ms => { s with now := s.now + ms }
+  | .dropsvc => { s with svcGone := true }
   | .arrive c key sc cp =>
+      if s.svcGone then s else           -- nobody holds a handle to call through
       match lookup s.role c with
       | some _ => s
       | none => arrive s c key sc cp
@@ -186,15 +190,62 @@ def parseOp (ws : List String) : Option Op :=
   | "poll" :: c :: _ => some (.poll (c.toNat?.getD 0))
   | "drop" :: c :: _ => some (.drop (c.toNat?.getD 0))
   | "adv" :: ms :: _ => some (.adv (ms.toNat?.getD 0))
+  | "manual" :: "dropsvc" :: _ => some .dropsvc
   | _ => none
 
+/-- operations the harness answers `noop`: an arrival when no service handle is left, and a
+poll / drop of a caller that never got a future for that reason (the driver answers duplicate
+arrivals and polls of callers it knows to be dead by itself) -/
+def refused (s : State) : Op → Bool
+  | .arrive _ _ _ _ => s.svcGone
+  | .poll c => s.svcGone && (lookup s.role c).isNone
+  | .drop c => s.svcGone && (lookup s.role c).isNone
+  | _ => false
+
+/-! ### a request arriving while a dropped leader's inner future is being destroyed
+
+`manual ondrop c=<c> by=<c2> inner=…` arms the harness's hook: when the inner future of leader `c` is
+destroyed unfinished, request `c2` for the same key arrives from inside (or, on a second thread, during)
+that destructor. At that moment the call of `c` is still in flight — its future has not been destroyed
+yet — so, by "at most one call in flight per key" and "a request arriving while it is in flight causes no
+inner call of its own", the request has to coalesce onto `c`: in the model it is an ordinary arrival that
+takes place *before* the drop of `c` (it becomes a waiter of `c` and is then failed with
+`leader_cancelled`). `dropOps` expands the `drop c` line accordingly; the pure model (`Op`, `stepS`,
+`run`) is not extended, so every theorem of `TR.Props.C11` applies to the expanded sequence
+(`TR.Props.C11.request_during_leader_teardown`). The hook table lives in the driver state only.
+
+The code as it is (service.rs, `Drop for CoalesceFuture`: `cancel` first, the `future` field is destroyed
+afterwards) lets such a request *lead* a second inner call before the first one is gone; the harness shows
+that and the monitors `c11-drop-overlap` / `c11-one-inflight-per-key` report it (notes/strengthen-C11.md). -/
+
+/-- the operations a `drop c` line stands for, given the armed hooks `c ↦ (c2, script of c2)` -/
+def dropOps (s : State) (hooks : List (Nat × (Nat × Step))) (c : Nat) : List Op :=
+  match lookup hooks c, lookup s.role c with
+  | some (c2, sc), some (.leader key _) =>
+      if !s.svcGone && !s.gone.contains c && (lookup s.role c2).isNone then
+        [.arrive c2 key sc false, .drop c]
+      else [.drop c]
+  | _, _ => [.drop c]
+
 def machine : Machine where
-  σ := State
-  init _ := init
-  step := fun s ws =>
+  σ := State × List (Nat × (Nat × Step))
+  init _ := (init, [])
+  step := fun (s, hooks) ws =>
+    match ws with
+    | "manual" :: "ondrop" :: rest =>
+        let kv := parseKv rest
+        match kv.optNat "c", kv.optNat "by" with
+        | some c, some c2 => ((s, (c, (c2, (planOf kv).headD { lat := 0, out := .ok })) :: hooks), [])
+        | _, _ => ((s, hooks), [])
+    | _ =>
     match parseOp ws with
-    | some op => let s' := stepS s op; (s', (s'.log.drop s.log.length).map CEv.toEv)
-    | none => (s, [])
-  now := fun s => s.now
+    | some (.drop c) =>
+        let s' := (dropOps s hooks c).foldl stepS s
+        ((s', hooks), if refused s (.drop c) then [.raw "noop"] else (s'.log.drop s.log.length).map CEv.toEv)
+    | some op =>
+        let s' := stepS s op
+        ((s', hooks), if refused s op then [.raw "noop"] else (s'.log.drop s.log.length).map CEv.toEv)
+    | none => ((s, hooks), [])
+  now := fun (s, _) => s.now
 
 end TR.Coalesce
